@@ -97,6 +97,8 @@ def gen(t, tier):
     else:
         mode = t.weighted([('remove_all', 3), ('default', 2)])
     sc['mode'] = mode
+    # the cache itself may have a refresh rule for serving (refresh_before); the cleanup task's own remove_before decides
+    sc['cache_refresh'] = t.pick([None, None, None, {'seconds': 1}, {'hours': 5}, {'weeks': 100}]) if has_ts else None
     sc['k'] = t.choice(max(1, len(sc['tiles'])))     # the threshold is placed around the store time of tile k
     sc['delta'] = t.pick([-1, 0, 0, 1, 2, 100])
     sc['after'] = t.pick([0.0, 0.5, 3.0, 7200.0])     # time between the last store and the cleanup
@@ -128,7 +130,7 @@ def shrink(sc):
                 c['k'] = min(c['k'], len(c['tiles']) - 1)
                 yield c
         size //= 2
-    for key, simple in (('coverage', None), ('meta_size', [1, 1]), ('salt', None), ('after', 0.0)):
+    for key, simple in (('coverage', None), ('meta_size', [1, 1]), ('salt', None), ('after', 0.0), ('cache_refresh', None)):
         if sc[key] != simple:
             c = copy.deepcopy(sc)
             c[key] = simple
@@ -214,7 +216,7 @@ def run(sc, tape):
         else:
             cache_conf['filename'] = realdir + '/c.gpkg'
         cache_conf['table_name'] = 'tiles'
-    conf = F.base_conf(cache_conf, meta_size=sc['meta_size'], link=link or False)
+    conf = F.base_conf(cache_conf, meta_size=sc['meta_size'], link=link or False, refresh_before=sc.get('cache_refresh'))
     conf['grids']['g'] = dict(sc['grid'])
     # a second cache next to the first one: a foreign object for the cleanup of c1
     conf['caches']['c2'] = {'grids': ['g'], 'sources': ['src'], 'format': 'image/png',
